@@ -90,6 +90,7 @@ type sNode struct {
 	pollTopic string
 	polls     chan []peer.ID
 	asked     chan struct{}
+	slowSub   time.Duration
 }
 
 func (n *sNode) Ls(context.Context) ([]string, error) { return nil, nil }
@@ -133,6 +134,9 @@ func (n *sNode) Publish(_ context.Context, topic string, data []byte) error {
 }
 
 func (n *sNode) Subscribe(_ context.Context, topic string, _ ...options.PubSubSubscribeOption) (coreiface.PubSubSubscription, error) {
+	if n.slowSub > 0 {
+		time.Sleep(n.slowSub) // subscribing takes a while: calls made meanwhile overlap with this one
+	}
 	s := &sSub{ch: make(chan *sMsg, 1024), closed: make(chan struct{})}
 	n.net.mu.Lock()
 	n.net.subs[topic] = append(n.net.subs[topic], &sNodeSub{n, s})
@@ -358,10 +362,13 @@ func (r *trRun) oneOnOne() {
 			}
 			chans[n] = ch
 		}
-		errs := make(chan error, 2)
+		// A connects to B from two goroutines at once (two stores of one instance see the same peer join), B once
+		a.slowSub = 20 * time.Millisecond
+		errs := make(chan error, 3)
+		go func() { errs <- chans[a].Connect(ctx, b.id) }()
 		go func() { errs <- chans[a].Connect(ctx, b.id) }()
 		go func() { errs <- chans[b].Connect(ctx, a.id) }()
-		for i := 0; i < 2; i++ {
+		for i := 0; i < 3; i++ {
 			if err := <-errs; err != nil {
 				r.res.Inconclusive = append(r.res.Inconclusive, "oneonone connect: "+err.Error())
 				return
@@ -371,7 +378,9 @@ func (r *trRun) oneOnOne() {
 		net.mu.Lock()
 		topics := append([]string{}, net.topics...)
 		net.mu.Unlock()
-		if len(topics) != 2 || topics[0] != topics[1] {
+		if len(topics) > 2 && topics[0] == topics[1] && topics[1] == topics[2] {
+			r.violate(k, "message", "after overlapping Connect calls one end holds more than one subscription to the pairwise topic (each delivers every payload)", 2, len(topics))
+		} else if len(topics) != 2 || topics[0] != topics[1] {
 			r.violate(k, "channel-name", "the two ends of a pairwise channel derived different channel names", nil, topics)
 			continue
 		}
